@@ -221,3 +221,83 @@ Example C06_nonvacuous :
   /\ nth 18 (map (fun o => snd (fst o)) (run ex_cfg tl0 ex_ops)) ROk = RStopIteration
   /\ lim [ex_ev 60 2 6] true (Some 3) 0 = Some 3 /\ lim [ex_ev 70 3 1; ex_ev 71 3 1] false None 0 = Some 2.
 Proof. vm_compute. repeat split. Qed.
+
+(** 7. Interpolating tracks (control tracks scheduled with interpolate = linear / cosine; model: Sched/Interp.v, the
+    lifecycle around it: Sched/InterpLife.v, lemmas Sched/InterpLifeProofs.v).  The non-interpolating statements above
+    (C06_muted) speak about Model.perform_event; the interpolating branch of Track.tick reaches perform_event from two
+    other call sites.  For EVERY state of the interpolating track (first tick, inside a segment, on the tick that opens
+    the next segment), every mode, resolution and count limit, and EVERY history of ticks / mute / unmute / unschedule
+    (= stop / clear): *)
+From Isobar Require Import Sched.Interp Sched.InterpLife Sched.InterpLifeProofs.
+From Coq Require Import QArith String.
+
+(* one tick: muted -> no control call; not scheduled or not yet started -> nothing at all, the track is not touched;
+   the successor state of the track does not depend on the mute flag *)
+Theorem C06_interp_muted_tick : forall cospi tpb mode maxc st,
+  (l_muted st = true ->
+     match fst (lstep cospi tpb mode maxc st LTick) with Some o => is_call o = false | None => False end)
+  /\ (l_sched st = false \/ (0 < l_wait st)%nat ->
+      fst (lstep cospi tpb mode maxc st LTick) = Some ONone /\ l_track (snd (lstep cospi tpb mode maxc st LTick)) = l_track st)
+  /\ (forall m', l_track (snd (lstep cospi tpb mode maxc st LTick))
+                 = l_track (snd (lstep cospi tpb mode maxc (mkL (l_track st) m' (l_sched st) (l_wait st)) LTick))).
+Proof.
+  intros cospi tpb mode maxc st. split; [apply muted_tick_silent|]. split; [apply idle_tick_silent|].
+  intros m'. destruct st as [tr m s w]. apply (mute_invisible cospi tpb mode maxc tr m m' s w).
+Qed.
+Print Assumptions C06_interp_muted_tick.
+
+(* histories: on every tick on which the history says the track is muted, unscheduled or not started, no call ... *)
+Theorem C06_interp_silent : forall cospi tpb mode maxc h st k,
+  audible (nth k (gates h (l_muted st) (l_sched st) (l_wait st)) GOff) = false ->
+  is_call (nth k (ltrace cospi tpb mode maxc h st) ONone) = false.
+Proof. exact life_silent. Qed.
+Print Assumptions C06_interp_silent.
+
+(* ... and on every other tick exactly the outcome that the plain run of the track (Interp.run: never muted; C15 gives
+   its closed form) has on the running tick of the same index: muting neither shifts nor delays the curve, nor changes
+   the number of events taken from the stream, nor the tick on which the track finishes *)
+Theorem C06_interp_audible : forall cospi tpb mode maxc h st k,
+  let g := gates h (l_muted st) (l_sched st) (l_wait st) in
+  audible (nth k g GOff) = true ->
+  nth k (ltrace cospi tpb mode maxc h st) ONone
+  = nth (run_index g k) (Interp.run cospi tpb mode maxc (n_running g) (l_track st)) ONone.
+Proof. exact life_audible. Qed.
+Print Assumptions C06_interp_audible.
+
+(* whole-trace form (the gates are a function of the history alone), and its instance without unschedule *)
+Theorem C06_interp_gates : forall cospi tpb mode maxc h st,
+  let g := gates h (l_muted st) (l_sched st) (l_wait st) in
+  ltrace cospi tpb mode maxc h st = apply_gates g (Interp.run cospi tpb mode maxc (n_running g) (l_track st)).
+Proof. exact life_gates. Qed.
+Theorem C06_interp_mask : forall cospi tpb mode maxc h tr m, no_unschedule h = true ->
+  ltrace cospi tpb mode maxc h (mkL tr m true O)
+  = mask (mute_flags h m) (Interp.run cospi tpb mode maxc (List.length (mute_flags h m)) tr).
+Proof. exact life_mask. Qed.
+
+(* the track machine ends every history in the state it would have reached without the mute / unmute calls;
+   after unschedule no tick of any later history makes a call or moves the track *)
+Theorem C06_interp_state : forall cospi tpb mode maxc h st m',
+  l_track (lfinal cospi tpb mode maxc h st)
+  = l_track (lfinal cospi tpb mode maxc (strip_mutes h) (mkL (l_track st) m' (l_sched st) (l_wait st))).
+Proof. exact mutes_do_not_move_the_track. Qed.
+Theorem C06_interp_unscheduled : forall cospi tpb mode maxc h st, l_sched st = false ->
+  Forall (fun o => o = ONone) (ltrace cospi tpb mode maxc h st) /\ l_track (lfinal cospi tpb mode maxc h st) = l_track st.
+Proof. exact unscheduled_for_good. Qed.
+Print Assumptions C06_interp_unscheduled.
+
+(* non-vacuity: control 7 on channel 1, points 0 -> 4 (4 ticks) -> 0 (2 ticks) -> end, linear, 4 ticks per beat; the
+   start is deferred by one tick; muted before tick 3, unmuted before tick 5, unscheduled before tick 7: the values of
+   ticks 3 and 4 are missing, tick 5 carries the value of ITS place on the curve (4, the second control point), nothing
+   after the unschedule although two more values were due *)
+Definition ex_cev (v : Q) (d : Q) : Interp.event :=
+  Interp.mkEvent true d [("control"%string, VOpq 7); ("value"%string, VNum v); ("channel"%string, VOpq 1)].
+Definition ex_life : list lop :=
+  [LTick; LTick; LTick; LMute; LTick; LTick; LUnmute; LTick; LTick; LUnschedule; LTick; LTick; LUnmute; LTick].
+Example C06_interp_nonvacuous :
+  let call v := OCall (VOpq 7) (VNum v) (VOpq 1) in
+  ltrace (fun _ => 0) 4 Linear None ex_life (life_init 1 [ex_cev 0 1; ex_cev 4 (1#2); ex_cev 0 1])
+  = [ONone; call 0; call (4 # 4); ONone; ONone; call (16 # 4); call (4 # 2); ONone; ONone; ONone]
+  /\ map audible (gates ex_life false true 1) = [false; true; true; false; false; true; true; false; false; false]
+  /\ Interp.run (fun _ => 0) 4 Linear None 8 (Interp.init [ex_cev 0 1; ex_cev 4 (1#2); ex_cev 0 1])
+     = [call 0; call (4 # 4); call (8 # 4); call (12 # 4); call (16 # 4); call (4 # 2); call (0 # 2); ONone].
+Proof. vm_compute. repeat split. Qed.
